@@ -529,6 +529,15 @@ def crafted(rng):
                 log[0:48] = b"ASTM-E57" + struct.pack("<IIQQQQ", 1, 0, size // 1020 * 1024, 48, len(xml1), 1024)
                 out.append(("crafted-%s-packet-%s%s" % (ptype, where, "" if first else "-after-data"), seal(log),
                             "%s packet of declared length %d with %d bytes left in the file%s" % (ptype, pl, R, "" if first else ", after two data packets")))
+    # K four-byte ignored packets in front of the only data packet, prototype of P records: before the repair of the crate every
+    # skipped packet cost a walk over all P queues (one step = K x P, quadratic in the file size); see c09.py PROBE_SKIPPED
+    K, P = 200000, 4000
+    proto = "".join('<zz:a%d type="Float"/>' % i for i in range(P))
+    xml = pc_xml(1, proto).replace(b"<e57Root ", b'<e57Root xmlns:zz="http://z" ', 1)
+    pkt = struct.pack("<BBHH", 1, 0, 0xFFFF, P) + struct.pack("<H", 8) * P + bytes(8 * P)
+    pkt += bytes((-len(pkt)) % 4)
+    out.append(("crafted-skipped-packets-%d-prototype-%d" % (K, P), build(xml, cv([ign * K, pkt])),
+                "%d ignored packets of 4 bytes before the only data packet, %d records" % (K, P)))
     # huge record count over little data
     out.append(("crafted-huge-recordcount", build(pc_xml(U64, '<cartesianX type="Float"/>'), cv([data_packet([rng.bytes(40)])])), "recordCount 2^64-1, ten points of data"))
     # full 64-bit range integers
@@ -558,7 +567,7 @@ def all_mutants(bases, rng, tier):
         for kind, phys in blob_length_mutants(b):
             out.append(dict(kind=kind, base=b.name, phys=phys, keep=True))
     for kind, phys, note in crafted(core.Rng(rng.next())):
-        out.append(dict(kind=kind, base="crafted", phys=phys, note=note))
+        out.append(dict(kind=kind, base="crafted", phys=phys, note=note, nomodel=kind.startswith("crafted-skipped-packets")))
     # quick tier: thin out the systematic binary classes of the larger files, keeping every class
     if tier == "quick":
         budget = 4200
@@ -835,7 +844,7 @@ def explore(rep, tier, rng, replay, profiles=("debug", "release")):
         return sum(int(x) for x in re.findall(r"raw:n=(\d+)", t["raw"] or ""))
     # a file on which the first profile hangs or dies has no descriptors to hand to the model: take them from the other profile
     midx = [i for i, m in enumerate(muts)
-            if points(tots[first][i]) <= MODEL_MAX_POINTS and
+            if points(tots[first][i]) <= MODEL_MAX_POINTS and not m.get("nomodel") and
             (replay or len(m["phys"]) <= MODEL_MAX_BYTES or (not tots[first][i]["crash"] and r2.below(60) == 0))]
     mout = []
     for c0 in range(0, len(midx), 4000):
